@@ -28,13 +28,15 @@ type ctx struct {
 	lines  int
 	args   map[string]string
 	// chunking
+	header   func()
+	inHeader bool
 	outBase  string
 	chunk    int
 	maxLines int
 }
 
 func (c *ctx) emit(v interface{}) {
-	if c.maxLines > 0 && c.lines > 0 && c.lines%c.maxLines == 0 {
+	if c.maxLines > 0 && c.lines > 0 && c.lines%c.maxLines == 0 && !c.inHeader {
 		c.rotate()
 	}
 	b, err := json.Marshal(v)
@@ -56,6 +58,12 @@ func (c *ctx) open() {
 	}
 	c.outF = f
 	c.out = bufio.NewWriterSize(f, 1<<20)
+	if c.header != nil {
+		// chunk-local context (rule tables etc.) is repeated at the head of every chunk
+		c.inHeader = true
+		c.header()
+		c.inHeader = false
+	}
 }
 
 func (c *ctx) rotate() {
